@@ -81,21 +81,366 @@ impl<const K: usize> AffTree<K> {
 }
 
 
-// ---------------------------------------------------------------- stage 1: structure
+// ---------------------------------------------------------------- specification of grafting
 // the listed terminals are distinct leaves of the tree whose output feeds the left operand (dimension dl)
 pub open spec fn terminals_ok<const K: usize>(a: AArena<K>, ts: Seq<usize>, dl: usize) -> bool {
     &&& forall|j: int| 0 <= j < ts.len() ==> a.dom().contains(#[trigger] ts[j]) && a[ts[j]].isleaf && a[ts[j]].value.aff.mat.nrows() == dl
     &&& forall|j1: int, j2: int| 0 <= j1 < j2 < ts.len() ==> ts[j1] != ts[j2]
 }
-// nodes of the tree as it was before keep their index; its decisions are untouched; only the processed terminals change
-pub open spec fn old_nodes_kept<const K: usize>(a0: AArena<K>, a1: AArena<K>) -> bool {
-    forall|i: usize| #![trigger a1[i]] a0.dom().contains(i) ==> a1.dom().contains(i) && a1[i].parent == a0[i].parent && (!a0[i].isleaf ==> a1[i] == a0[i])
+// nodes of the tree as it was before keep their index and parent; decisions and unlisted terminals are untouched
+pub open spec fn old_nodes_kept<const K: usize>(a0: AArena<K>, a1: AArena<K>, ts: Seq<usize>) -> bool {
+    forall|i: usize| #![trigger a1[i]] a0.dom().contains(i) ==> a1.dom().contains(i) && a1[i].parent == a0[i].parent
+        && (!a0[i].isleaf || !ts.contains(i) ==> a1[i] == a0[i])
 }
-// a work item (p0, p1): the copy p1 of lhs node p0 exists, has no children yet and carries a function of the right shape
-pub open spec fn item_ok<const K: usize>(al: AArena<K>, a: AArena<K>, it: (usize, usize), in_dim: usize) -> bool {
-    &&& al.dom().contains(it.0) && a.dom().contains(it.1)
-    &&& a[it.1].isleaf && no_kids(a[it.1])
-    &&& a[it.1].value.aff.ok() && a[it.1].value.aff.mat.ncols() == in_dim && a[it.1].value.aff.mat.nrows() == al[it.0].value.aff.mat.nrows()
+// a1 extends a0 and differs from it on old indices at most at t
+pub open spec fn frame_except<const K: usize>(a0: AArena<K>, a1: AArena<K>, t: usize) -> bool {
+    forall|i: usize| #![trigger a1[i]] #![trigger a0.dom().contains(i)] a0.dom().contains(i) ==> a1.dom().contains(i) && a1[i].parent == a0[i].parent && (i != t ==> a1[i] == a0[i])
+}
+// relation between a node of the left operand and its copy below a terminal with function f
+pub open spec fn copy_ok<const K: usize>(src: AffNode<K>, cp: AffNode<K>, fm: M, fb: V, in_dim: usize) -> bool {
+    &&& cp.value.aff.ok() && cp.value.aff.mat.ncols() == in_dim && cp.value.aff.mat.nrows() == src.value.aff.mat.nrows()
+    &&& src.isleaf ==> forall|x: V| x.len() == in_dim ==> #[trigger] cp.value.aff.ap(x) == src.value.aff.ap(vadd(mv(fm, x), fb))
+    &&& !src.isleaf ==> forall|x: V, i: int| x.len() == in_dim && 0 <= i < src.value.aff.mat.nrows() ==> (#[trigger] cp.value.aff.row_sat(i, x) <==> src.value.aff.row_sat(i, vadd(mv(fm, x), fb)))
+}
+// the copy has the same leaf flag and its child slots are the images of the source's child slots
+pub open spec fn kids_mirror<const K: usize>(src: AffNode<K>, cp: AffNode<K>, phi: Map<usize, usize>) -> bool {
+    &&& cp.isleaf == src.isleaf
+    &&& forall|l: int| 0 <= l < K ==> match #[trigger] src.children[l] {
+            None => cp.children[l].is_none(),
+            Some(c) => phi.dom().contains(c) && cp.children[l] == Some(phi[c]),
+        }
+}
+// ghost state of grafting one copy of the left operand (arena al, root rl) below terminal t (function f):
+// phi maps the lhs nodes copied so far to their copies, `done` are the lhs nodes whose children have been copied,
+// `cur` is the node whose children are being copied
+pub open spec fn graft_inv<const K: usize>(al: AArena<K>, a: AArena<K>, dom0: Set<usize>, phi: Map<usize, usize>, done: Set<usize>, cur: Option<usize>,
+    rl: usize, t: usize, fm: M, fb: V, in_dim: usize) -> bool
+{
+    &&& phi.dom().contains(rl) && phi[rl] == t
+    &&& forall|p: usize| #[trigger] phi.dom().contains(p) ==> al.dom().contains(p) && a.dom().contains(phi[p]) && (phi[p] == t || !dom0.contains(phi[p]))
+            && copy_ok(al[p], a[phi[p]], fm, fb, in_dim)
+    &&& forall|p: usize, q: usize| phi.dom().contains(p) && phi.dom().contains(q) && p != q ==> #[trigger] phi[p] != #[trigger] phi[q]
+    &&& forall|p: usize| #[trigger] done.contains(p) ==> phi.dom().contains(p) && kids_mirror(al[p], a[phi[p]], phi)
+    &&& forall|p: usize| #[trigger] phi.dom().contains(p) && !done.contains(p) && Some(p) != cur ==> a[phi[p]].isleaf && no_kids(a[phi[p]])
+    &&& forall|q: usize| #[trigger] phi.dom().contains(q) && q != rl ==> al[q].parent is Some && (done.contains(al[q].parent.unwrap()) || cur == Some(al[q].parent.unwrap()))
+}
+pub open spec fn stack_ok(phi: Map<usize, usize>, done: Set<usize>, cur: Option<usize>, stack: Seq<(usize, usize)>) -> bool {
+    &&& forall|j: int| 0 <= j < stack.len() ==> phi.dom().contains((#[trigger] stack[j]).0) && phi[stack[j].0] == stack[j].1 && !done.contains(stack[j].0) && Some(stack[j].0) != cur
+    &&& forall|j1: int, j2: int| 0 <= j1 < j2 < stack.len() ==> (#[trigger] stack[j1]).0 != (#[trigger] stack[j2]).0
+    &&& forall|p: usize| #[trigger] phi.dom().contains(p) && !done.contains(p) && Some(p) != cur ==> exists|j: int| 0 <= j < stack.len() && (#[trigger] stack[j]).0 == p
+}
+// a complete copy of the left operand hangs below t
+pub open spec fn grafted<const K: usize>(al: AArena<K>, a: AArena<K>, dom0: Set<usize>, rl: usize, t: usize, fm: M, fb: V, in_dim: usize) -> bool {
+    exists|phi: Map<usize, usize>| #[trigger] graft_inv(al, a, dom0, phi, phi.dom(), None, rl, t, fm, fb, in_dim)
+}
+// the function the result has to denote: route through the old tree; at a listed terminal continue in the left operand
+pub open spec fn comp_fn<const K: usize>(a0: AArena<K>, h0: Map<usize, nat>, ts: Seq<usize>, al: AArena<K>, hl: Map<usize, nat>, rl: usize, idx: usize, x: V) -> Option<V>
+    decreases h0[idx]
+{
+    let nd = a0[idx];
+    if nd.isleaf {
+        if ts.contains(idx) { tree_fn(al, hl, rl, nd.value.aff.ap(x)) } else { Some(nd.value.aff.ap(x)) }
+    } else {
+        let l = decide(&nd.value.aff, x);
+        if 0 <= l < K && nd.children[l].is_some() && h0[nd.children[l].unwrap()] < h0[idx] {
+            comp_fn(a0, h0, ts, al, hl, rl, nd.children[l].unwrap(), x)
+        } else { None }
+    }
+}
+// g after f as partial functions
+pub open spec fn and_then_fn<const K: usize>(a0: AArena<K>, h0: Map<usize, nat>, al: AArena<K>, hl: Map<usize, nat>, rl: usize, idx: usize, x: V) -> Option<V> {
+    match tree_fn(a0, h0, idx, x) { None => None, Some(y) => tree_fn(al, hl, rl, y) }
+}
+
+// ---------------------------------------------------------------- lemmas
+pub proof fn lemma_label_val_eq(a: &AffFunc, b: &AffFunc, x: V, y: V, n: int)
+    requires forall|i: int| 0 <= i < n ==> (#[trigger] a.row_sat(i, x) <==> b.row_sat(i, y))
+    ensures label_val(a, x, n) == label_val(b, y, n)
+    decreases n
+{
+    if n > 0 { lemma_label_val_eq(a, b, x, y, n - 1); }
+}
+
+// start: the terminal itself is the copy of the root
+pub proof fn lemma_graft_init<const K: usize>(al: AArena<K>, a: AArena<K>, dom0: Set<usize>, rl: usize, t: usize, fm: M, fb: V, in_dim: usize)
+    requires al.dom().contains(rl), a.dom().contains(t), a[t].isleaf, no_kids(a[t]), copy_ok(al[rl], a[t], fm, fb, in_dim)
+    ensures graft_inv(al, a, dom0, Map::<usize, usize>::empty().insert(rl, t), Set::<usize>::empty(), None, rl, t, fm, fb, in_dim),
+        stack_ok(Map::<usize, usize>::empty().insert(rl, t), Set::<usize>::empty(), None, seq![(rl, t)])
+{
+    let phi = Map::<usize, usize>::empty().insert(rl, t);
+    let st = seq![(rl, t)];
+    assert forall|p: usize| #[trigger] phi.dom().contains(p) implies exists|j: int| 0 <= j < st.len() && (#[trigger] st[j]).0 == p by { assert(st[0].0 == rl); }
+}
+
+// pop: the popped node becomes the current one; none of its children has a copy yet
+pub proof fn lemma_graft_pop<const K: usize>(al: AArena<K>, a: AArena<K>, dom0: Set<usize>, phi: Map<usize, usize>, done: Set<usize>,
+    rl: usize, t: usize, fm: M, fb: V, in_dim: usize, st: Seq<(usize, usize)>)
+    requires graft_inv(al, a, dom0, phi, done, None, rl, t, fm, fb, in_dim), stack_ok(phi, done, None, st), st.len() > 0,
+        kids_ok(al), root_ok(al, Some(rl)),
+    ensures graft_inv(al, a, dom0, phi, done, Some(st.last().0), rl, t, fm, fb, in_dim), stack_ok(phi, done, Some(st.last().0), st.drop_last()),
+        phi.dom().contains(st.last().0), phi[st.last().0] == st.last().1, !done.contains(st.last().0),
+        a[st.last().1].isleaf && no_kids(a[st.last().1]),
+        forall|l: int| 0 <= l < K && (#[trigger] al[st.last().0].children[l]).is_some() ==> !phi.dom().contains(al[st.last().0].children[l].unwrap()),
+{
+    let p0 = st.last().0;
+    let rest = st.drop_last();
+    assert(st[st.len() - 1] == st.last());
+    assert forall|j: int| 0 <= j < rest.len() implies phi.dom().contains((#[trigger] rest[j]).0) && phi[rest[j].0] == rest[j].1 && !done.contains(rest[j].0) && Some(rest[j].0) != Some(p0) by {
+        assert(rest[j] == st[j]);
+    }
+    assert forall|j1: int, j2: int| 0 <= j1 < j2 < rest.len() implies (#[trigger] rest[j1]).0 != (#[trigger] rest[j2]).0 by { assert(rest[j1] == st[j1] && rest[j2] == st[j2]); }
+    assert forall|p: usize| #[trigger] phi.dom().contains(p) && !done.contains(p) && Some(p) != Some(p0) implies exists|j: int| 0 <= j < rest.len() && (#[trigger] rest[j]).0 == p by {
+        let j = choose|j: int| 0 <= j < st.len() && (#[trigger] st[j]).0 == p;
+        assert(j < st.len() - 1);
+        assert(rest[j] == st[j]);
+    }
+    assert forall|l: int| 0 <= l < K && (#[trigger] al[p0].children[l]).is_some() implies !phi.dom().contains(al[p0].children[l].unwrap()) by {
+        let c = al[p0].children[l].unwrap();
+        assert(al[c].parent == Some(p0));
+        if phi.dom().contains(c) { assert(c != rl); }
+    }
+}
+
+// one child copied
+pub proof fn lemma_graft_child<const K: usize>(al: AArena<K>, a_s: AArena<K>, a0: AArena<K>, a1: AArena<K>, phi: Map<usize, usize>, done: Set<usize>,
+    rl: usize, t: usize, fm: M, fb: V, in_dim: usize, st: Seq<(usize, usize)>, p0: usize, label: usize, c0: usize, c: usize)
+    requires graft_inv(al, a0, a_s.dom(), phi, done, Some(p0), rl, t, fm, fb, in_dim), stack_ok(phi, done, Some(p0), st),
+        phi.dom().contains(p0), !done.contains(p0), !phi.dom().contains(c0),
+        kids_ok(al), label < K, al.dom().contains(p0), al[p0].children[label as int] == Some(c0),
+        frame_except(a_s, a0, t),
+        child_added(a0, a1, phi[p0], label, c), a1[phi[p0]].value == a0[phi[p0]].value, copy_ok(al[c0], a1[c], fm, fb, in_dim),
+    ensures graft_inv(al, a1, a_s.dom(), phi.insert(c0, c), done, Some(p0), rl, t, fm, fb, in_dim), stack_ok(phi.insert(c0, c), done, Some(p0), st.push((c0, c))),
+        frame_except(a_s, a1, t),
+{
+    let p1 = phi[p0];
+    let phi1 = phi.insert(c0, c);
+    let st1 = st.push((c0, c));
+    assert(al.dom().contains(c0) && al[c0].parent == Some(p0));
+    assert(c0 != p0);
+    assert(p1 == t || !a_s.dom().contains(p1));
+    assert(!a_s.dom().contains(c));
+    assert forall|i: usize| #![trigger a1[i]] a_s.dom().contains(i) implies a1.dom().contains(i) && a1[i].parent == a_s[i].parent && (i != t ==> a1[i] == a_s[i]) by {
+        assert(a0[i].parent == a_s[i].parent);
+        if i != p1 { assert(a1[i] == a0[i]); }
+    }
+    assert forall|p: usize| #[trigger] phi1.dom().contains(p) implies al.dom().contains(p) && a1.dom().contains(phi1[p]) && (phi1[p] == t || !a_s.dom().contains(phi1[p]))
+            && copy_ok(al[p], a1[phi1[p]], fm, fb, in_dim) by {
+        if p != c0 {
+            assert(phi.dom().contains(p));
+            if phi[p] != p1 { assert(a1[phi[p]] == a0[phi[p]]); }
+        }
+    }
+    assert forall|p: usize, q: usize| phi1.dom().contains(p) && phi1.dom().contains(q) && p != q implies #[trigger] phi1[p] != #[trigger] phi1[q] by {
+        if p != c0 { assert(phi.dom().contains(p)); }
+        if q != c0 { assert(phi.dom().contains(q)); }
+    }
+    assert forall|p: usize| #[trigger] done.contains(p) implies phi1.dom().contains(p) && kids_mirror(al[p], a1[phi1[p]], phi1) by {
+        assert(phi.dom().contains(p) && p != p0 && p != c0);
+        assert(phi[p] != p1);
+        assert(a1[phi[p]] == a0[phi[p]]);
+        assert(kids_mirror(al[p], a0[phi[p]], phi));
+        assert forall|l: int| 0 <= l < K implies match #[trigger] al[p].children[l] {
+            None => a1[phi1[p]].children[l].is_none(),
+            Some(cc) => phi1.dom().contains(cc) && a1[phi1[p]].children[l] == Some(phi1[cc]),
+        } by {}
+    }
+    assert forall|p: usize| #[trigger] phi1.dom().contains(p) && !done.contains(p) && Some(p) != Some(p0) implies a1[phi1[p]].isleaf && no_kids(a1[phi1[p]]) by {
+        if p != c0 {
+            assert(phi.dom().contains(p));
+            assert(phi[p] != p1);
+            assert(a1[phi[p]] == a0[phi[p]]);
+        }
+    }
+    assert forall|q: usize| #[trigger] phi1.dom().contains(q) && q != rl implies al[q].parent is Some && (done.contains(al[q].parent.unwrap()) || Some(p0) == Some(al[q].parent.unwrap())) by {
+        if q != c0 { assert(phi.dom().contains(q)); }
+    }
+    assert forall|j: int| 0 <= j < st1.len() implies phi1.dom().contains((#[trigger] st1[j]).0) && phi1[st1[j].0] == st1[j].1 && !done.contains(st1[j].0) && Some(st1[j].0) != Some(p0) by {
+        if j < st.len() { assert(st1[j] == st[j]); assert(phi.dom().contains(st[j].0)); }
+        else { assert(st1[j] == (c0, c)); if done.contains(c0) { assert(phi.dom().contains(c0)); } }
+    }
+    assert forall|j1: int, j2: int| 0 <= j1 < j2 < st1.len() implies (#[trigger] st1[j1]).0 != (#[trigger] st1[j2]).0 by {
+        assert(st1[j1] == st[j1]);
+        assert(phi.dom().contains(st[j1].0));
+        if j2 < st.len() { assert(st1[j2] == st[j2]); }
+    }
+    assert forall|p: usize| #[trigger] phi1.dom().contains(p) && !done.contains(p) && Some(p) != Some(p0) implies exists|j: int| 0 <= j < st1.len() && (#[trigger] st1[j]).0 == p by {
+        if p == c0 { assert(st1[st.len() as int].0 == c0); }
+        else {
+            assert(phi.dom().contains(p));
+            let j = choose|j: int| 0 <= j < st.len() && (#[trigger] st[j]).0 == p;
+            assert(st1[j] == st[j]);
+        }
+    }
+}
+
+// all children of the current node copied: it is done
+pub proof fn lemma_graft_done<const K: usize>(al: AArena<K>, a: AArena<K>, dom0: Set<usize>, phi: Map<usize, usize>, done: Set<usize>,
+    rl: usize, t: usize, fm: M, fb: V, in_dim: usize, st: Seq<(usize, usize)>, p0: usize)
+    requires graft_inv(al, a, dom0, phi, done, Some(p0), rl, t, fm, fb, in_dim), stack_ok(phi, done, Some(p0), st),
+        phi.dom().contains(p0), kids_mirror(al[p0], a[phi[p0]], phi),
+    ensures graft_inv(al, a, dom0, phi, done.insert(p0), None, rl, t, fm, fb, in_dim), stack_ok(phi, done.insert(p0), None, st),
+{
+    let done1 = done.insert(p0);
+    assert forall|p: usize| #[trigger] phi.dom().contains(p) && !done1.contains(p) implies exists|j: int| 0 <= j < st.len() && (#[trigger] st[j]).0 == p by {
+        assert(Some(p) != Some(p0));
+    }
+}
+
+
+// the shape invariant of C04 survives copying a child
+pub proof fn lemma_shape_child<const K: usize>(al: AArena<K>, a0: AArena<K>, a1: AArena<K>, in_dim: usize, dl: usize, p0: usize, p1: usize, label: usize, c: usize)
+    requires aff_shape_ok(a0, in_dim), aff_shape_ok(al, dl), child_added(a0, a1, p1, label, c), a1[p1].value == a0[p1].value,
+        a1[c].value.aff.ok(), a1[c].value.aff.mat.ncols() == in_dim, al.dom().contains(p0), !al[p0].isleaf,
+        a0[p1].value.aff.mat.nrows() == al[p0].value.aff.mat.nrows(),
+    ensures aff_shape_ok(a1, in_dim)
+{
+    assert forall|i: usize| #![trigger a1[i].value] a1.dom().contains(i) implies a1[i].value.aff.ok() && a1[i].value.aff.mat.ncols() == in_dim
+        && (!a1[i].isleaf ==> 1 <= a1[i].value.aff.mat.nrows() < 16 && (1usize << (a1[i].value.aff.mat.nrows() as usize)) <= K) by {
+        if i != c && i != p1 { assert(a1[i] == a0[i]); }
+        if i == p1 { assert(a0[p1].value.aff.ok()); assert(al[p0].value.aff.ok()); }
+    }
+}
+
+// from the bookkeeping of the children loop to kids_mirror
+pub proof fn lemma_mirror_from_kids<const K: usize>(src: AffNode<K>, cp: AffNode<K>, phi: Map<usize, usize>)
+    requires
+        src.isleaf <==> no_kids(src),
+        cp.isleaf <==> kid_seq(src.children, 0).len() == 0,
+        forall|j: int| 0 <= j < kid_seq(src.children, 0).len() ==> phi.dom().contains((#[trigger] kid_seq(src.children, 0)[j]).1)
+            && cp.children[kid_seq(src.children, 0)[j].0 as int] == Some(phi[kid_seq(src.children, 0)[j].1]),
+        forall|l: int| 0 <= l < K && (#[trigger] cp.children[l]).is_some() ==> exists|j: int| 0 <= j < kid_seq(src.children, 0).len() && (#[trigger] kid_seq(src.children, 0)[j]).0 == l,
+    ensures kids_mirror(src, cp, phi)
+{
+    let ks = kid_seq(src.children, 0);
+    lemma_kid_seq_members(src.children, 0);
+    lemma_kid_seq_len(src.children, 0);
+    lemma_count_zero_no_kids(src, 0);
+    assert forall|l: int| 0 <= l < K implies match #[trigger] src.children[l] {
+        None => cp.children[l].is_none(),
+        Some(c) => phi.dom().contains(c) && cp.children[l] == Some(phi[c]),
+    } by {
+        match src.children[l] {
+            None => {
+                if cp.children[l].is_some() {
+                    let j = choose|j: int| 0 <= j < ks.len() && (#[trigger] ks[j]).0 == l;
+                    assert(src.children[ks[j].0 as int] == Some(ks[j].1));
+                }
+            }
+            Some(c) => {
+                let j = choose|j: int| 0 <= j < ks.len() && ks[j] == (l as usize, src.children[l].unwrap());
+                assert(ks[j].0 == l && ks[j].1 == c);
+            }
+        }
+    }
+}
+
+// a finished copy, seen from the tree as it was at the very beginning
+pub proof fn lemma_graft_finish<const K: usize>(al: AArena<K>, a: AArena<K>, dom1: Set<usize>, dom0: Set<usize>, phi: Map<usize, usize>, done: Set<usize>,
+    rl: usize, t: usize, fm: M, fb: V, in_dim: usize)
+    requires graft_inv(al, a, dom1, phi, done, None, rl, t, fm, fb, in_dim), stack_ok(phi, done, None, Seq::<(usize, usize)>::empty()),
+        forall|i: usize| #[trigger] dom0.contains(i) ==> dom1.contains(i),
+    ensures grafted(al, a, dom0, rl, t, fm, fb, in_dim)
+{
+    assert forall|p: usize| #[trigger] phi.dom().contains(p) implies done.contains(p) by {
+        if !done.contains(p) {
+            let j = choose|j: int| 0 <= j < Seq::<(usize, usize)>::empty().len() && (#[trigger] Seq::<(usize, usize)>::empty()[j]).0 == p;
+        }
+    }
+    assert(done =~= phi.dom());
+    assert(graft_inv(al, a, dom0, phi, phi.dom(), None, rl, t, fm, fb, in_dim));
+}
+
+// later changes elsewhere do not disturb a finished copy
+pub proof fn lemma_graft_frame<const K: usize>(al: AArena<K>, a: AArena<K>, a2: AArena<K>, dom0: Set<usize>, rl: usize, t: usize, fm: M, fb: V, in_dim: usize, t2: usize)
+    requires grafted(al, a, dom0, rl, t, fm, fb, in_dim), frame_except(a, a2, t2), dom0.contains(t2), t2 != t
+    ensures grafted(al, a2, dom0, rl, t, fm, fb, in_dim)
+{
+    let phi = choose|phi: Map<usize, usize>| #[trigger] graft_inv(al, a, dom0, phi, phi.dom(), None, rl, t, fm, fb, in_dim);
+    assert forall|p: usize| #[trigger] phi.dom().contains(p) implies a2[phi[p]] == a[phi[p]] && a2.dom().contains(phi[p]) by {}
+    assert(graft_inv(al, a2, dom0, phi, phi.dom(), None, rl, t, fm, fb, in_dim));
+}
+
+// the copy denotes lhs after f
+pub proof fn lemma_graft_sem<const K: usize>(al: AArena<K>, hl: Map<usize, nat>, a: AArena<K>, h: Map<usize, nat>, dom0: Set<usize>, phi: Map<usize, usize>,
+    rl: usize, t: usize, fm: M, fb: V, in_dim: usize, p: usize, x: V)
+    requires graft_inv(al, a, dom0, phi, phi.dom(), None, rl, t, fm, fb, in_dim), ranked_down(al, hl), ranked_down(a, h), phi.dom().contains(p), x.len() == in_dim
+    ensures tree_fn(a, h, phi[p], x) == tree_fn(al, hl, p, vadd(mv(fm, x), fb))
+    decreases hl[p]
+{
+    let src = al[p];
+    let cp = a[phi[p]];
+    assert(copy_ok(src, cp, fm, fb, in_dim));
+    assert(kids_mirror(src, cp, phi));
+    if !src.isleaf {
+        lemma_label_val_eq(&cp.value.aff, &src.value.aff, x, vadd(mv(fm, x), fb), src.value.aff.mat.nrows() as int);
+        let l = decide(&src.value.aff, vadd(mv(fm, x), fb));
+        assert(l == decide(&cp.value.aff, x));
+        if 0 <= l < K {
+            match src.children[l] {
+                None => {}
+                Some(c) => {
+                    assert(cp.children[l] == Some(phi[c]));
+                    assert(hl[c] < hl[p]);
+                    assert(a.dom().contains(phi[p]));
+                    assert(a[phi[p]].children[l].is_some());
+                    assert(h[phi[c]] < h[phi[p]]);
+                    lemma_graft_sem(al, hl, a, h, dom0, phi, rl, t, fm, fb, in_dim, c, x);
+                }
+            }
+        }
+    }
+}
+
+// the whole result denotes comp_fn
+pub proof fn lemma_comp_final<const K: usize>(a0: AArena<K>, h0: Map<usize, nat>, a1: AArena<K>, h1: Map<usize, nat>, ts: Seq<usize>,
+    al: AArena<K>, hl: Map<usize, nat>, rl: usize, in_dim: usize, idx: usize, x: V)
+    requires ranked_down(a0, h0), ranked_down(a1, h1), ranked_down(al, hl), kids_ok(a0), old_nodes_kept(a0, a1, ts), a0.dom().contains(idx), x.len() == in_dim,
+        forall|j: int| 0 <= j < ts.len() ==> grafted(al, a1, a0.dom(), rl, #[trigger] ts[j], a0[ts[j]].value.aff.mat.m(), a0[ts[j]].value.aff.bias.v(), in_dim),
+    ensures tree_fn(a1, h1, idx, x) == comp_fn(a0, h0, ts, al, hl, rl, idx, x)
+    decreases h0[idx]
+{
+    let nd = a0[idx];
+    assert(a1.dom().contains(idx));
+    if nd.isleaf {
+        if ts.contains(idx) {
+            let j = choose|j: int| 0 <= j < ts.len() && ts[j] == idx;
+            assert(grafted(al, a1, a0.dom(), rl, ts[j], a0[ts[j]].value.aff.mat.m(), a0[ts[j]].value.aff.bias.v(), in_dim));
+            let fm = nd.value.aff.mat.m();
+            let fb = nd.value.aff.bias.v();
+            let phi = choose|phi: Map<usize, usize>| #[trigger] graft_inv(al, a1, a0.dom(), phi, phi.dom(), None, rl, idx, fm, fb, in_dim);
+            lemma_graft_sem(al, hl, a1, h1, a0.dom(), phi, rl, idx, fm, fb, in_dim, rl, x);
+        } else {
+            assert(a1[idx] == a0[idx]);
+        }
+    } else {
+        assert(a1[idx] == a0[idx]);
+        let l = decide(&nd.value.aff, x);
+        if 0 <= l < K && nd.children[l].is_some() {
+            let c = nd.children[l].unwrap();
+            assert(h0[c] < h0[idx]);
+            assert(a1[idx].children[l].is_some());
+            assert(h1[c] < h1[idx]);
+            lemma_comp_final(a0, h0, a1, h1, ts, al, hl, rl, in_dim, c, x);
+        }
+    }
+}
+
+// when every terminal below idx is listed, comp_fn is function composition
+pub proof fn lemma_comp_all<const K: usize>(a0: AArena<K>, h0: Map<usize, nat>, ts: Seq<usize>, al: AArena<K>, hl: Map<usize, nat>, rl: usize, idx: usize, x: V)
+    requires ranked_down(a0, h0), kids_ok(a0), a0.dom().contains(idx),
+        forall|i: usize| a0.dom().contains(i) && #[trigger] a0[i].isleaf ==> ts.contains(i),
+    ensures comp_fn(a0, h0, ts, al, hl, rl, idx, x) == and_then_fn(a0, h0, al, hl, rl, idx, x)
+    decreases h0[idx]
+{
+    let nd = a0[idx];
+    if !nd.isleaf {
+        let l = decide(&nd.value.aff, x);
+        if 0 <= l < K && nd.children[l].is_some() {
+            let c = nd.children[l].unwrap();
+            assert(h0[c] < h0[idx]);
+            lemma_comp_all(a0, h0, ts, al, hl, rl, c, x);
+        }
+    }
 }
 
 impl<const K: usize> AffTree<K> {
@@ -127,72 +472,165 @@ impl<const K: usize> AffTree<K> {
         old(rhs).tree.wf(), aff_shape_ok(old(rhs).a(), old(rhs).in_dim),
         terminals_ok(old(rhs).a(), terminals@, lhs.in_dim),
     ensures
-        // C04 (for the un-pruned composition): the result is a well-formed tree of the same input dimension
+        // C04 (un-pruned composition): the result is a well-formed tree of the same input dimension, every node has a function of that input dimension
         final(rhs).tree.wf(), final(rhs).tree.root == old(rhs).tree.root, final(rhs).in_dim == old(rhs).in_dim,
         aff_shape_ok(final(rhs).a(), final(rhs).in_dim),
-        // C02: the surviving nodes of the receiving tree keep their indices, its decisions are untouched
-        old_nodes_kept(old(rhs).a(), final(rhs).a()),
+        // C02: the nodes of the receiving tree keep their indices and parents, its decisions and unlisted terminals are untouched
+        old_nodes_kept(old(rhs).a(), final(rhs).a(), terminals@),
+        // C02: below every listed terminal hangs a complete copy of the left operand (label for label), each copied node composed with the terminal's function
+        forall|j: int| 0 <= j < terminals@.len() ==> grafted(lhs.a(), final(rhs).a(), old(rhs).a().dom(), lhs.tree.root.unwrap(), #[trigger] terminals@[j],
+            old(rhs).a()[terminals@[j]].value.aff.mat.m(), old(rhs).a()[terminals@[j]].value.aff.bias.v(), final(rhs).in_dim),
+        // C02, the law: for every input the result denotes "route through the old tree, continue in the left operand at a listed terminal",
+        // undefinedness included
+        forall|h0: Map<usize, nat>, h1: Map<usize, nat>, hl: Map<usize, nat>, x: V|
+            #![trigger tree_fn(final(rhs).a(), h1, old(rhs).tree.root.unwrap(), x), comp_fn(old(rhs).a(), h0, terminals@, lhs.a(), hl, lhs.tree.root.unwrap(), old(rhs).tree.root.unwrap(), x)]
+            old(rhs).tree.root is Some && ranked_down(old(rhs).a(), h0) && ranked_down(final(rhs).a(), h1) && ranked_down(lhs.a(), hl) && x.len() == old(rhs).in_dim ==>
+            tree_fn(final(rhs).a(), h1, old(rhs).tree.root.unwrap(), x) == comp_fn(old(rhs).a(), h0, terminals@, lhs.a(), hl, lhs.tree.root.unwrap(), old(rhs).tree.root.unwrap(), x),
+        // ... which is function composition h(x) = g(f(x)) when all terminals are listed (as compose does)
+        (forall|i: usize| old(rhs).a().dom().contains(i) && #[trigger] old(rhs).a()[i].isleaf ==> terminals@.contains(i)) ==>
+        forall|h0: Map<usize, nat>, h1: Map<usize, nat>, hl: Map<usize, nat>, x: V|
+            #![trigger tree_fn(final(rhs).a(), h1, old(rhs).tree.root.unwrap(), x), and_then_fn(old(rhs).a(), h0, lhs.a(), hl, lhs.tree.root.unwrap(), old(rhs).tree.root.unwrap(), x)]
+            old(rhs).tree.root is Some && ranked_down(old(rhs).a(), h0) && ranked_down(final(rhs).a(), h1) && ranked_down(lhs.a(), hl) && x.len() == old(rhs).in_dim ==>
+            tree_fn(final(rhs).a(), h1, old(rhs).tree.root.unwrap(), x) == and_then_fn(old(rhs).a(), h0, lhs.a(), hl, lhs.tree.root.unwrap(), old(rhs).tree.root.unwrap(), x),
+//@hint end
+        proof {
+            let a0 = old(rhs).a(); let a1 = rhs.a(); let al = lhs.a(); let rl = lhs.tree.root.unwrap(); let ts = terminals@;
+            if old(rhs).tree.root is Some {
+                let r0 = old(rhs).tree.root.unwrap();
+                assert forall|h0: Map<usize, nat>, h1: Map<usize, nat>, hl: Map<usize, nat>, x: V|
+                    ranked_down(a0, h0) && ranked_down(a1, h1) && ranked_down(al, hl) && x.len() == old(rhs).in_dim implies
+                    #[trigger] tree_fn(a1, h1, r0, x) == #[trigger] comp_fn(a0, h0, ts, al, hl, rl, r0, x) by {
+                    lemma_comp_final(a0, h0, a1, h1, ts, al, hl, rl, old(rhs).in_dim, r0, x);
+                }
+                if forall|i: usize| a0.dom().contains(i) && #[trigger] a0[i].isleaf ==> ts.contains(i) {
+                    assert forall|h0: Map<usize, nat>, h1: Map<usize, nat>, hl: Map<usize, nat>, x: V|
+                        ranked_down(a0, h0) && ranked_down(a1, h1) && ranked_down(al, hl) && x.len() == old(rhs).in_dim implies
+                        #[trigger] tree_fn(a1, h1, r0, x) == #[trigger] and_then_fn(a0, h0, al, hl, rl, r0, x) by {
+                        lemma_comp_final(a0, h0, a1, h1, ts, al, hl, rl, old(rhs).in_dim, r0, x);
+                        lemma_comp_all(a0, h0, ts, al, hl, rl, r0, x);
+                    }
+                }
+            }
+        }
 //@loop 1
             invariant
                 K >= 2, K < usize::MAX, lhs.tree.wf(), lhs.tree.root is Some, aff_shape_ok(lhs.a(), lhs.in_dim),
-                terminals_ok(old(rhs).a(), terminals@, lhs.in_dim), 0 <= __t <= terminals@.len(),
+                terminals_ok(old(rhs).a(), terminals@, lhs.in_dim), old(rhs).tree.wf(),
+                0 <= __t <= terminals@.len(),
                 rhs.tree.wf(), rhs.tree.root == old(rhs).tree.root, rhs.in_dim == old(rhs).in_dim, aff_shape_ok(rhs.a(), rhs.in_dim),
-                old_nodes_kept(old(rhs).a(), rhs.a()),
-                // terminals still to come are untouched
+                old_nodes_kept(old(rhs).a(), rhs.a(), terminals@),
+                // terminals still to come are untouched, the earlier ones carry their copy
                 forall|j: int| __t <= j < terminals@.len() ==> rhs.a()[#[trigger] terminals@[j]] == old(rhs).a()[terminals@[j]],
+                forall|j: int| 0 <= j < __t ==> grafted(lhs.a(), rhs.a(), old(rhs).a().dom(), lhs.tree.root.unwrap(), #[trigger] terminals@[j],
+                    old(rhs).a()[terminals@[j]].value.aff.mat.m(), old(rhs).a()[terminals@[j]].value.aff.bias.v(), rhs.in_dim),
 //@hint loop 1 start
             let ghost a_start = rhs.a();
+            let ghost rl = lhs.tree.root.unwrap();
             proof { assert(terminals@[__t as int] == terminals@[__t as int]); }
+//@hint after rhs.update_node(terminal_idx, new_root_aff).unwrap();
+            let ghost mut phi: Map<usize, usize> = Map::<usize, usize>::empty().insert(rl, terminal_idx);
+            let ghost mut done: Set<usize> = Set::<usize>::empty();
+            proof {
+                broadcast use axiom_array2_shape;
+                assert(a_start[terminal_idx] == old(rhs).a()[terminal_idx]);
+                assert(no_kids(rhs.a()[terminal_idx])) by { assert(no_kids(a_start[terminal_idx])); }
+                lemma_graft_init(lhs.a(), rhs.a(), a_start.dom(), rl, terminal_idx, terminal_aff.mat.m(), terminal_aff.bias.v(), rhs.in_dim);
+                assert(aff_shape_ok(rhs.a(), rhs.in_dim)) by {
+                    assert forall|i: usize| #![trigger rhs.a()[i].value] rhs.a().dom().contains(i) implies rhs.a()[i].value.aff.ok() && rhs.a()[i].value.aff.mat.ncols() == rhs.in_dim
+                        && (!rhs.a()[i].isleaf ==> 1 <= rhs.a()[i].value.aff.mat.nrows() < 16 && (1usize << (rhs.a()[i].value.aff.mat.nrows() as usize)) <= K) by {
+                        if i != terminal_idx { assert(rhs.a()[i] == a_start[i]); }
+                    }
+                }
+            }
 //@loop 2
                 invariant
                     K >= 2, K < usize::MAX, lhs.tree.wf(), lhs.tree.root is Some, aff_shape_ok(lhs.a(), lhs.in_dim),
-                    terminals_ok(old(rhs).a(), terminals@, lhs.in_dim), 0 < __t <= terminals@.len(), terminal_idx == terminals@[__t - 1],
+                terminals_ok(old(rhs).a(), terminals@, lhs.in_dim), old(rhs).tree.wf(),
+                    0 < __t <= terminals@.len(), terminal_idx == terminals@[__t - 1],
                     rhs.tree.wf(), rhs.tree.root == old(rhs).tree.root, rhs.in_dim == old(rhs).in_dim, aff_shape_ok(rhs.a(), rhs.in_dim),
-                    old_nodes_kept(old(rhs).a(), rhs.a()),
-                    forall|j: int| __t <= j < terminals@.len() ==> rhs.a()[#[trigger] terminals@[j]] == old(rhs).a()[terminals@[j]],
+                    // what held when this terminal was taken up, and what has changed since
+                    old_nodes_kept(old(rhs).a(), a_start, terminals@),
+                    forall|j: int| __t - 1 <= j < terminals@.len() ==> a_start[#[trigger] terminals@[j]] == old(rhs).a()[terminals@[j]],
+                    forall|j: int| 0 <= j < __t - 1 ==> grafted(lhs.a(), a_start, old(rhs).a().dom(), lhs.tree.root.unwrap(), #[trigger] terminals@[j],
+                        old(rhs).a()[terminals@[j]].value.aff.mat.m(), old(rhs).a()[terminals@[j]].value.aff.bias.v(), rhs.in_dim),
+                    frame_except(a_start, rhs.a(), terminal_idx),
                     terminal_aff.ok(), terminal_aff.mat.ncols() == rhs.in_dim, terminal_aff.mat.nrows() == lhs.in_dim,
-                    // work items
-                    forall|j: int| 0 <= j < stack@.len() ==> item_ok(lhs.a(), rhs.a(), #[trigger] stack@[j], rhs.in_dim),
-                    forall|j1: int, j2: int| 0 <= j1 < j2 < stack@.len() ==> stack@[j1].1 != stack@[j2].1,
-                    // copies are either the terminal itself or fresh nodes
-                    forall|j: int| 0 <= j < stack@.len() ==> (#[trigger] stack@[j]).1 == terminal_idx || !old(rhs).a().dom().contains(stack@[j].1),
+                    terminal_aff.mat.m() == old(rhs).a()[terminal_idx].value.aff.mat.m(), terminal_aff.bias.v() == old(rhs).a()[terminal_idx].value.aff.bias.v(),
+                    rl == lhs.tree.root.unwrap(),
+                    graft_inv(lhs.a(), rhs.a(), a_start.dom(), phi, done, None, rl, terminal_idx, terminal_aff.mat.m(), terminal_aff.bias.v(), rhs.in_dim),
+                    stack_ok(phi, done, None, stack@),
 //@hint loop 2 start
-                let ghost a_pop = rhs.a();
-                let ghost rest = stack@;
+                let ghost st_before = stack@.push((parent0_idx, parent1_idx));
                 proof {
-                    // facts about the popped item
-                    assert(item_ok(lhs.a(), rhs.a(), (parent0_idx, parent1_idx), rhs.in_dim));
+                    lemma_graft_pop(lhs.a(), rhs.a(), a_start.dom(), phi, done, rl, terminal_idx, terminal_aff.mat.m(), terminal_aff.bias.v(), rhs.in_dim, st_before);
+                    assert(st_before.drop_last() =~= stack@);
+                    lemma_kid_seq_members(lhs.a()[parent0_idx].children, 0);
+                    lemma_kid_seq_len(lhs.a()[parent0_idx].children, 0);
                 }
 //@loop 3
                     invariant
                         K >= 2, K < usize::MAX, lhs.tree.wf(), lhs.tree.root is Some, aff_shape_ok(lhs.a(), lhs.in_dim),
-                        terminals_ok(old(rhs).a(), terminals@, lhs.in_dim), 0 < __t <= terminals@.len(), terminal_idx == terminals@[__t - 1],
-                        rhs.tree.wf(), rhs.tree.root == old(rhs).tree.root, rhs.in_dim == old(rhs).in_dim, aff_shape_ok(rhs.a(), rhs.in_dim),
-                        old_nodes_kept(old(rhs).a(), rhs.a()),
-                        forall|j: int| __t <= j < terminals@.len() ==> rhs.a()[#[trigger] terminals@[j]] == old(rhs).a()[terminals@[j]],
-                        terminal_aff.ok(), terminal_aff.mat.ncols() == rhs.in_dim, terminal_aff.mat.nrows() == lhs.in_dim,
-                        forall|j: int| 0 <= j < stack@.len() ==> item_ok(lhs.a(), rhs.a(), #[trigger] stack@[j], rhs.in_dim),
-                        forall|j1: int, j2: int| 0 <= j1 < j2 < stack@.len() ==> stack@[j1].1 != stack@[j2].1,
-                        forall|j: int| 0 <= j < stack@.len() ==> (#[trigger] stack@[j]).1 == terminal_idx || !old(rhs).a().dom().contains(stack@[j].1),
-                        // the node being expanded
-                        lhs.a().dom().contains(parent0_idx), rhs.a().dom().contains(parent1_idx),
-                        parent1_idx == terminal_idx || !old(rhs).a().dom().contains(parent1_idx),
-                        forall|j: int| 0 <= j < stack@.len() ==> (#[trigger] stack@[j]).1 != parent1_idx,
-                        rhs.a()[parent1_idx].value.aff.ok() && rhs.a()[parent1_idx].value.aff.mat.ncols() == rhs.in_dim
-                            && rhs.a()[parent1_idx].value.aff.mat.nrows() == lhs.a()[parent0_idx].value.aff.mat.nrows(),
+                terminals_ok(old(rhs).a(), terminals@, lhs.in_dim), old(rhs).tree.wf(),
+                        0 < __t <= terminals@.len(), terminal_idx == terminals@[__t - 1],
+                    rhs.tree.wf(), rhs.tree.root == old(rhs).tree.root, rhs.in_dim == old(rhs).in_dim, aff_shape_ok(rhs.a(), rhs.in_dim),
+                    // what held when this terminal was taken up, and what has changed since
+                    old_nodes_kept(old(rhs).a(), a_start, terminals@),
+                    forall|j: int| __t - 1 <= j < terminals@.len() ==> a_start[#[trigger] terminals@[j]] == old(rhs).a()[terminals@[j]],
+                    forall|j: int| 0 <= j < __t - 1 ==> grafted(lhs.a(), a_start, old(rhs).a().dom(), lhs.tree.root.unwrap(), #[trigger] terminals@[j],
+                        old(rhs).a()[terminals@[j]].value.aff.mat.m(), old(rhs).a()[terminals@[j]].value.aff.bias.v(), rhs.in_dim),
+                    frame_except(a_start, rhs.a(), terminal_idx),
+                    terminal_aff.ok(), terminal_aff.mat.ncols() == rhs.in_dim, terminal_aff.mat.nrows() == lhs.in_dim,
+                    terminal_aff.mat.m() == old(rhs).a()[terminal_idx].value.aff.mat.m(), terminal_aff.bias.v() == old(rhs).a()[terminal_idx].value.aff.bias.v(),
+                        rl == lhs.tree.root.unwrap(),
+                        graft_inv(lhs.a(), rhs.a(), a_start.dom(), phi, done, Some(parent0_idx), rl, terminal_idx, terminal_aff.mat.m(), terminal_aff.bias.v(), rhs.in_dim),
+                        stack_ok(phi, done, Some(parent0_idx), stack@),
+                        // the node being expanded and its copy
+                        phi.dom().contains(parent0_idx), phi[parent0_idx] == parent1_idx, !done.contains(parent0_idx),
                         0 <= __i <= __kids@.len(), __kids@.len() == kid_seq(lhs.a()[parent0_idx].children, 0).len(), __kids@.len() <= K,
                         n_children0 == __kids@.len(),
                         forall|j: int| 0 <= j < __kids@.len() ==> (#[trigger] __kids@[j]).source_idx == parent0_idx
                             && __kids@[j].label == kid_seq(lhs.a()[parent0_idx].children, 0)[j].0 && __kids@[j].target_idx == kid_seq(lhs.a()[parent0_idx].children, 0)[j].1,
                         created_children == __i, skipped_children == 0,
-                        // slots of the labels still to come are empty; the node is a leaf until its first child arrives
-                        forall|j: int| __i <= j < __kids@.len() ==> rhs.a()[parent1_idx].children[(#[trigger] __kids@[j]).label as int].is_none(),
-                        __i == 0 ==> rhs.a()[parent1_idx].isleaf && no_kids(rhs.a()[parent1_idx]),
+                        // children copied so far / still to come
+                        forall|j: int| __i <= j < __kids@.len() ==> rhs.a()[parent1_idx].children[(#[trigger] __kids@[j]).label as int].is_none() && !phi.dom().contains(__kids@[j].target_idx),
+                        forall|j: int| 0 <= j < __i ==> phi.dom().contains((#[trigger] __kids@[j]).target_idx)
+                            && rhs.a()[parent1_idx].children[__kids@[j].label as int] == Some(phi[__kids@[j].target_idx]),
+                        forall|l: int| 0 <= l < K && (#[trigger] rhs.a()[parent1_idx].children[l]).is_some() ==> exists|j: int| 0 <= j < __i && (#[trigger] __kids@[j]).label == l,
+                        rhs.a()[parent1_idx].isleaf <==> __i == 0,
 //@hint loop 3 start
+                    let ghost a_pre = rhs.a();
                     proof {
                         lemma_kid_seq_members(lhs.a()[parent0_idx].children, 0);
                         lemma_kid_seq_len(lhs.a()[parent0_idx].children, 0);
                     }
+//@hint after let child1_idx = rhs .tree .add_child_node(parent1_idx, label, AffContent::new(child1_aff)) .unwrap();
+                    proof {
+                        broadcast use axiom_array2_shape;
+                        lemma_graft_child(lhs.a(), a_start, a_pre, rhs.a(), phi, done, rl, terminal_idx, terminal_aff.mat.m(), terminal_aff.bias.v(), rhs.in_dim,
+                            stack@, parent0_idx, label, child0_idx, child1_idx);
+                        lemma_count_zero_no_kids(lhs.a()[parent0_idx], 0);
+                        lemma_shape_child(lhs.a(), a_pre, rhs.a(), rhs.in_dim, lhs.in_dim, parent0_idx, parent1_idx, label, child1_idx);
+                        phi = phi.insert(child0_idx, child1_idx);
+                    }
+//@hint loop 3 after
+                proof {
+                    lemma_count_zero_no_kids(lhs.a()[parent0_idx], 0);
+                    lemma_mirror_from_kids(lhs.a()[parent0_idx], rhs.a()[parent1_idx], phi);
+                    lemma_graft_done(lhs.a(), rhs.a(), a_start.dom(), phi, done, rl, terminal_idx, terminal_aff.mat.m(), terminal_aff.bias.v(), rhs.in_dim, stack@, parent0_idx);
+                    done = done.insert(parent0_idx);
+                }
+//@hint loop 2 after
+            proof {
+                assert(stack@ =~= Seq::<(usize, usize)>::empty());
+                lemma_graft_finish(lhs.a(), rhs.a(), a_start.dom(), old(rhs).a().dom(), phi, done, rl, terminal_idx, terminal_aff.mat.m(), terminal_aff.bias.v(), rhs.in_dim);
+                assert forall|j: int| 0 <= j < __t - 1 implies grafted(lhs.a(), rhs.a(), old(rhs).a().dom(), rl, #[trigger] terminals@[j],
+                    old(rhs).a()[terminals@[j]].value.aff.mat.m(), old(rhs).a()[terminals@[j]].value.aff.bias.v(), rhs.in_dim) by {
+                    lemma_graft_frame(lhs.a(), a_start, rhs.a(), old(rhs).a().dom(), rl, terminals@[j],
+                        old(rhs).a()[terminals@[j]].value.aff.mat.m(), old(rhs).a()[terminals@[j]].value.aff.bias.v(), rhs.in_dim, terminal_idx);
+                }
+                assert(terminals@.contains(terminal_idx)) by { assert(terminals@[__t - 1] == terminal_idx); }
+                assert(old_nodes_kept(old(rhs).a(), rhs.a(), terminals@));
+            }
 //@end
 }
 
